@@ -46,6 +46,64 @@ pub open spec fn list_parts_ok(defs: Defs, t: SemType) -> bool {
     }
 }
 
+// ---- the top of `list_indexed_access`: how the key set is read off the index type and the list part off the
+// object type
+// T2: derived Clone on N returns an equal value
+pub assume_specification[ <N as Clone>::clone ](x: &N) -> (r: N) ensures r == *x;
+pub open spec fn lits_upto(values: Seq<NumberRepresentationOrFormat>, k: int) -> Seq<N>
+    decreases k
+{
+    if k <= 0 || k > values.len() { Seq::empty() } else {
+        match values[k - 1] {
+            NumberRepresentationOrFormat::Lit(n) => lits_upto(values, k - 1).push(n),
+            NumberRepresentationOrFormat::Format(_) => lits_upto(values, k - 1),
+        }
+    }
+}
+pub broadcast proof fn lemma_lits_step(values: Seq<NumberRepresentationOrFormat>, k: int)
+    requires 0 <= k < values.len()
+    ensures #[trigger] lits_upto(values, k + 1) == (match values[k] {
+        NumberRepresentationOrFormat::Lit(n) => lits_upto(values, k).push(n),
+        NumberRepresentationOrFormat::Format(_) => lits_upto(values, k),
+    })
+{}
+pub open spec fn has_number_part(idx: SemType) -> bool {
+    bit(idx.all, 4u32) || exists|i: int| 0 <= i < idx.subtype_data@.len() && ptag(*#[trigger] idx.subtype_data@[i]) == SubTypeTag::Number
+}
+// `key` is the key set the number part of the index type stands for: every number, or the listed / excluded literals
+pub closed spec fn key_for(idx: SemType, key: ListNumberKey) -> bool {
+    if bit(idx.all, 4u32) { key is True } else {
+        exists|i: int| 0 <= i < idx.subtype_data@.len() && (match *#[trigger] idx.subtype_data@[i] {
+            ProperSubtype::Number { allowed, values } => (match key {
+                ListNumberKey::N { allowed: a2, values: v2 } => a2 == allowed && v2@ == lits_upto(values@, values@.len() as int),
+                ListNumberKey::True => false,
+            }),
+            _ => false,
+        })
+    }
+}
+pub open spec fn no_list_part(obj: SemType) -> bool {
+    !bit(obj.all, 128u32) && forall|i: int| 0 <= i < obj.subtype_data@.len() ==> ptag(*#[trigger] obj.subtype_data@[i]) != SubTypeTag::List
+}
+pub open spec fn list_part(obj: SemType, b: Bdd) -> bool {
+    !bit(obj.all, 128u32) && exists|i: int| 0 <= i < obj.subtype_data@.len() && (match *#[trigger] obj.subtype_data@[i] {
+        ProperSubtype::List(bb) => *bb == b,
+        _ => false,
+    })
+}
+pub open spec fn list_parts_wf(defs: Defs, t: SemType) -> bool {
+    forall|i: int| 0 <= i < t.subtype_data@.len() ==> match *#[trigger] t.subtype_data@[i] {
+        ProperSubtype::List(b) => bdd_latoms_wf(defs, *b),
+        _ => true,
+    }
+}
+// what `T[K]` is on the list part of T: nothing without a number part in K or a list part in T; otherwise the member
+// type of T's list diagram at the key set K stands for
+pub closed spec fn list_access_spec(defs: Defs, obj: SemType, key: ListNumberKey, r: SemType) -> bool {
+    if no_list_part(obj) { forall|v: Val| !#[trigger] mem(r, v) }
+    else { exists|b: Bdd| #[trigger] list_part(obj, b) && forall|v: Val| #[trigger] mem(r, v) == proj_mem(defs, b, key, v) }
+}
+
 // ---- objects / Maps
 pub uninterp spec fn mapping_tbl_defined(defs: Defs, i: usize) -> bool;
 pub uninterp spec fn map_tbl_defined(defs: Defs, i: usize) -> bool;
